@@ -32,13 +32,14 @@ type gen struct {
 	structs []string // values of type T0
 	ptrs    []string // *T0
 
-	loops    int      // loop nesting in the current function
-	labels   []string // labels of enclosing loops
-	inFunc   bool     // inside a function body (defer permitted)
-	bareRet  bool     // a plain "return" is permitted here
-	budget   int      // remaining statements
-	nest     int      // block nesting below the function body
-	hdr      int      // > 0 while generating an if/for/switch header
+	loops    int             // loop nesting in the current function
+	labels   []string        // labels of enclosing loops
+	inFunc   bool            // inside a function body (defer permitted)
+	bareRet  bool            // a plain "return" is permitted here
+	budget   int             // remaining statements
+	nest     int             // block nesting below the function body
+	hdr      int             // > 0 while generating an if/for/switch header
+	ro       map[string]bool // loop control variables: never assigned in a body
 	hasT0    bool
 	helpers  []helper
 	imports  map[string]bool
@@ -206,6 +207,21 @@ func (g *gen) intLit() string {
 	default:
 		return fmt.Sprintf("0x%X", 1+g.pick("lithex", 254))
 	}
+}
+
+// assignable picks an int variable that may be assigned (not a loop control
+// variable, not a constant).
+func (g *gen) assignable() (string, bool) {
+	var c []string
+	for _, v := range g.ints {
+		if !g.ro[v] && !strings.HasPrefix(v, "k") && !strings.HasPrefix(v, "K") {
+			c = append(c, v)
+		}
+	}
+	if len(c) == 0 {
+		return "", false
+	}
+	return c[len(c)-1-g.pick("avar", len(c))], true
 }
 
 func (g *gen) intVar() (string, bool) {
@@ -671,7 +687,7 @@ func (g *gen) stmt(d int) []string {
 func (g *gen) stmtBody(d int) []string {
 	nk := 14
 	if d > 0 {
-		nk = 34
+		nk = 42
 	}
 	k := g.pick("stmt", nk)
 	switch k {
@@ -713,7 +729,7 @@ func (g *gen) stmtBody(d int) []string {
 		g.ints = append(g.ints, v)
 		return g.trail([]string{l}, 15, "var")
 	case 3: // assignment forms
-		v, ok := g.intVar()
+		v, ok := g.assignable()
 		if !ok {
 			return g.stmtBody(0)
 		}
@@ -735,7 +751,7 @@ func (g *gen) stmtBody(d int) []string {
 			g.f("incdec")
 			return []string{v + "--"}
 		case 5:
-			if w, ok := g.intVar(); ok && w != v {
+			if w, ok := g.assignable(); ok && w != v {
 				g.f("assign-swap")
 				return []string{fmt.Sprintf("%s, %s = %s, %s", v, w, w, v)}
 			}
@@ -999,6 +1015,94 @@ func (g *gen) stmtBody(d int) []string {
 		body := g.block(d-1, 3, "iife")
 		g.loops, g.labels, g.inFunc, g.bareRet = save, lb, inFunc, bare
 		return g.braced("func()", body, "()")
+	case 34: // pointer to an int variable
+		if v, ok := g.assignable(); ok {
+			g.f("pointer-deref-assign")
+			q := g.name("ptr")
+			return []string{q + " := &" + v, "*" + q + " = " + g.intExpr(1), g.printStmt("*"+q, v)}
+		}
+		return g.stmtBody(0)
+	case 35: // two-value forms
+		g.f("two-value-form")
+		a, ok := g.name("v"), g.name("ok")
+		g.bools = append(g.bools, ok)
+		if len(g.maps) > 0 && g.chance("twomap", 50) {
+			g.f("two-value-map-index")
+			m := g.maps[g.pick("tvm", len(g.maps))]
+			g.ints = append(g.ints, a)
+			return []string{fmt.Sprintf("%s, %s := %s[\"a\"]", a, ok, m)}
+		}
+		g.f("two-value-type-assertion")
+		any := g.name("a")
+		g.ints = append(g.ints, a)
+		return []string{"var " + any + " any = " + g.intExpr(1), fmt.Sprintf("%s, %s := %s.(int)", a, ok, any)}
+	case 36: // make / nil slice / nested composites
+		switch g.pick("mkkind", 5) {
+		case 0:
+			g.f("make-slice")
+			v := g.name("xs")
+			n := 1 + g.pick("mkn", 3)
+			g.slices = append(g.slices, sliceVar{v, n})
+			return []string{fmt.Sprintf("%s := make([]int, %d)", v, n), fmt.Sprintf("%s[0] = %s", v, g.intExpr(1))}
+		case 1:
+			g.f("var-nil-slice")
+			v := g.name("xs")
+			g.slices = append(g.slices, sliceVar{v, 1})
+			return []string{"var " + v + " []int", fmt.Sprintf("%s = append(%s, %s)", v, v, g.intExpr(1))}
+		case 2:
+			g.f("composite-nested-slices")
+			v := g.name("nn")
+			lit := fmt.Sprintf("[][]int{{%s, %s}, {%s}}", g.intExpr(1), g.intExpr(0), g.intExpr(1))
+			if g.chance("nestedmulti", 40) {
+				g.f("composite-multiline")
+				c := ""
+				if g.chance("nestedc", 40) {
+					g.f("comment-in-composite")
+					c = " " + g.lineComment()
+				}
+				lit = fmt.Sprintf("[][]int{\n\t{%s, %s},%s\n\t{%s},\n}", g.intExpr(1), g.intExpr(0), c, g.intExpr(1))
+			}
+			return []string{v + " := " + lit, g.printStmt(v+"[0][1]", "len("+v+"[1])", v)}
+		case 3:
+			g.f("composite-map-of-slices")
+			v := g.name("ms")
+			return []string{fmt.Sprintf("%s := map[string][]int{\"a\": {%s, %s}, \"b\": {%s}}", v, g.intExpr(1), g.intExpr(0), g.intExpr(0)), g.printStmt("len("+v+"[\"a\"])", v+"[\"b\"][0]")}
+		default:
+			if g.hasT0 {
+				g.f("composite-slice-of-structs")
+				v := g.name("ts")
+				return []string{fmt.Sprintf("%s := []T0{{a: %s, b: %s}, {a: %s}}", v, g.intExpr(1), g.strExpr(0), g.intExpr(0)), g.printStmt(v+"[0].a", v+"[1].a", v+"[0].b")}
+			}
+			g.f("anonymous-struct")
+			v := g.name("an")
+			return []string{fmt.Sprintf("%s := struct{ x int }{x: %s}", v, g.intExpr(1)), g.printStmt(v + ".x")}
+		}
+	case 37: // multi-line raw string
+		g.f("string-raw-multiline")
+		v := g.name("s")
+		g.strs = append(g.strs, v)
+		return []string{v + " := `first line\nsecond \\n line`"}
+	case 38: // function-typed variable
+		g.f("func-typed-variable")
+		fn, p := g.name("fv"), g.name("q")
+		return []string{"var " + fn + " func(int) int", fmt.Sprintf("%s = func(%s int) int { return %s * %s }", fn, p, p, g.intLit()), g.printStmt(fn + "(" + g.intExpr(1) + ")")}
+	case 39: // several statements on one line
+		g.f("semicolon-joined")
+		return []string{g.printStmt(g.intExpr(1)) + "; " + g.printStmt(g.strExpr(1))}
+	case 40: // switch on a composite literal
+		g.f("switch")
+		g.f("switch-tag-composite")
+		tag := "[]int{1, 2}[1]"
+		if g.hasT0 && g.chance("swstruct", 50) {
+			tag = "(T0{a: 2}).a"
+		}
+		return []string{"switch " + tag + " {", "case 2:", "\t" + g.printStmt(), "default:", "\t" + g.printStmt(), "}"}
+	case 41: // helper returning a composite literal
+		if c := g.helperName("mk"); c != "" {
+			g.f("return-composite")
+			return []string{g.printStmt("mk("+g.intExpr(1)+")", "len(mk(1))")}
+		}
+		return g.ifStmt(d)
 	default: // type switch / type assertion
 		g.f("type-switch")
 		v := g.name("a")
@@ -1120,6 +1224,7 @@ func (g *gen) forClausesL(d int, label string) []string {
 		head = fmt.Sprintf("for %s:=0;%s<%d;%s++", i, i, n, i)
 	}
 	g.ints = append(g.ints, i)
+	g.ro[i] = true
 	body := g.loopBody(d, "for", label)
 	body = append([]string{g.printStmt(i)}, body...)
 	g.leave(s)
@@ -1132,6 +1237,7 @@ func (g *gen) forCond(d int) []string {
 	n := 1 + g.pick("bound2", 4)
 	out := []string{fmt.Sprintf("%s := %d", v, n)}
 	g.ints = append(g.ints, v)
+	g.ro[v] = true
 	body := []string{v + "--"}
 	// the decrement comes first so that continue cannot skip it
 	body = append(body, g.loopBody(d, "forcond", "")...)
@@ -1143,6 +1249,7 @@ func (g *gen) forInfinite(d int) []string {
 	v := g.name("n")
 	out := []string{fmt.Sprintf("%s := 0", v)}
 	g.ints = append(g.ints, v)
+	g.ro[v] = true
 	body := []string{v + "++"}
 	body = append(body, g.braced(fmt.Sprintf("if %s > %d", v, g.pick("bound3", 4)), []string{"break"}, "")...)
 	body = append(body, g.loopBody(d, "forinf", "")...)
@@ -1155,6 +1262,7 @@ func (g *gen) forRangeL(d int, label string) []string {
 	g.f("for-range")
 	s := g.enter()
 	k, v := g.name("i"), g.name("e")
+	g.ro[k], g.ro[v] = true, true
 	var head string
 	var pre []string
 	kind := g.pick("rangekind", 9)
@@ -1348,7 +1456,7 @@ func (g *gen) switchStmt(d int) []string {
 	}
 	if withDefault {
 		g.f("switch-default")
-		if g.chance("c-before-default", 15) {
+		if n > 0 && g.chance("c-before-default", 15) {
 			g.f("comment-before-case")
 			out = append(out, g.lineComment())
 		}
@@ -1516,6 +1624,11 @@ func (g *gen) fixedHelpers() []string {
 		g.helpers = append(g.helpers, helper{name: "apply", result: -1})
 		g.f("func-typed-parameter")
 	}
+	if g.chance("mk-helper", 40) {
+		g.f("return-composite")
+		out = append(out, "", "func mk(n int) []int {", "\treturn []int{n, n + 1}", "}")
+		g.helpers = append(g.helpers, helper{name: "mk", result: -1})
+	}
 	if g.chance("send-helper", 40) {
 		out = append(out, "", "func send(c chan, v int) {", "\tc <- v + 1", "}")
 		g.helpers = append(g.helpers, helper{name: "send", result: -1})
@@ -1541,7 +1654,7 @@ func (g *gen) render(lines []string) string {
 }
 
 func genCase(t *rapid.T) Case {
-	g := &gen{t: t, feat: map[string]bool{}, imports: map[string]bool{}}
+	g := &gen{t: t, feat: map[string]bool{}, imports: map[string]bool{}, ro: map[string]bool{}}
 	g.budget = 4 + g.pick("budget", 30)
 	fragment := g.chance("fragment", 25)
 	g.fragment = fragment
